@@ -74,3 +74,206 @@ for _k in ('key', 'no-key'):
         }
         modifies = ['field:PendingMessage.' + f for f in ('seq', 'type', 'payload', 'callback', 'retry', 'assembled_time')]
         returns = fb_returns
+
+
+# ------------------------------------------------------------------------------------------ _recvApp and the small handlers
+def last_box(E, seq):
+    """the value boxed at the end of a box-list"""
+    ref = z3.simplify(z3.Select(seq.arr, seq.n - 1))
+    for r, v in E.ip.state.boxes:
+        if r.eq(ref) or z3.is_true(z3.simplify(r == ref)):
+            return v
+    return None
+
+
+@contract('connection.ConnectionBase._recvApp', props=['C06', 'C04', 'C01'])
+class _:
+    def setup(E):
+        return dict(self=make_conn(E), msgseq=E.int('msgseq', cls=SEQ, lo=1, hi=S.M), msg=E.bytes('msg'))
+    skolems = {'j': 'int'}
+    ensures = {
+        # "byte-identical": exactly this (seq, payload) pair is appended to the application's queue, nothing else changes
+        'delivers-exactly-this-message': lambda old, self, msgseq, msg, E, j: (S.len(self.incoming_messages) == S.len(old.self.incoming_messages) + 1)
+        & S.implies((0 <= j) & (j < S.len(old.self.incoming_messages)),
+                    S.bool(z3.Select(self.incoming_messages.arr, S.term(j)) == z3.Select(old.self.incoming_messages.arr, S.term(j))))
+        & delivered_is(E, self, msgseq, msg),
+    }
+    modifies = ['self.incoming_messages']
+
+
+def delivered_is(E, self, msgseq, msg):
+    v = last_box(E, self.incoming_messages)
+    if not isinstance(v, tuple) or len(v) != 2:
+        return False
+    return S.eq(S.ival(v[0]), S.ival(msgseq)) & S.eq(v[1], msg)
+
+
+@contract('connection.ConnectionBase._recvDisconnect', props=['C10', 'C01'])
+class _:
+    def setup(E):
+        return dict(self=make_conn(E), msg=E.bytes('msg'))
+    ensures = {'status-disconnecting': lambda self: S.enum_is(self.status, self.status.cls.class_attrs['DISCONNECTING'])}
+    modifies = ['self.status']
+
+
+@contract('connection.ConnectionBase._recvKeepAlive', props=['C12', 'C01'])
+class _:
+    def setup(E):
+        return dict(self=make_conn(E), msg=E.bytes('msg'))
+    modifies = []
+
+
+# ------------------------------------------------------------------------------------------ _recv_message
+HANDLERS = {'CLIENT_HELLO': '_recvClientHello', 'SERVER_HELLO': '_recvServerHello', 'CHALLENGE_RESP': '_recvChallengeResponse',
+            'KEEP_ALIVE': '_recvKeepAlive', 'DISCONNECT': '_recvDisconnect', 'APP_FRAGMENT': '_recvAppFragment', 'APP': '_recvApp'}
+
+
+def handler_model(name):
+    def model(ip, self, *args):
+        ip.state.events.append(('handler', name, tuple(args)))
+        return None
+    return model
+
+
+RM_HOOKS = {'model:connection.ConnectionBase.' + h: handler_model(h) for h in HANDLERS.values()}
+
+
+@contract('connection.ConnectionBase._recv_message', props=['C04', 'C01', 'C06'])
+class _:
+    """the handlers are abstracted to recorded events here (each has its own contract): what is decided is WHICH handler runs,
+    with which arguments, and that a message already received inside the 256-message window reaches no handler at all"""
+    def setup(E):
+        return dict(self=make_conn(E), pkt_typ=E.enum(PTYPE, 'pkt_typ'), msgseq=E.int('msgseq', cls=SEQ, lo=1, hi=S.M), msg=E.bytes('msg'))
+    hooks = RM_HOOKS
+    uses = ['connection.BitField.insert']
+    skolems = {'x': 'int', 'j': 'int'}
+    ensures = {
+        # O3a (C04): a message seq already received inside the window is dropped without reaching any handler
+        'duplicate-in-window-reaches-no-handler': lambda old, events, msgseq: S.implies(
+            recv(old.self.bitfield_msg.current_seqnum, old.self.bitfield_msg.bits, 256, S.ival(msgseq)),
+            len([e for e in events if e[0] == 'handler']) == 0),
+        # O3b (C04): a message seq that has fallen out of the 256-message window cannot be told from a new one by this
+        # protocol: it is delivered again.  Genuine, recorded as a known finding (repairing it at message level would lose
+        # retransmissions whose first copy was lost: DESIGN.md section 4, F4)
+        'message-older-than-the-window-reaches-no-handler': lambda old, events, msgseq: S.implies(
+            stale_msg(old, msgseq), len([e for e in events if e[0] == 'handler']) == 0),
+        'exactly-the-handler-of-the-message-type': lambda old, events, pkt_typ, msgseq, msg: S.implies(
+            S.Not(recv(old.self.bitfield_msg.current_seqnum, old.self.bitfield_msg.bits, 256, S.ival(msgseq))),
+            dispatch_clause(events, pkt_typ, msgseq, msg)),
+    }
+    modifies = ['self.bitfield_msg.bits', 'self.bitfield_msg.current_seqnum']
+
+
+def stale_msg(old, msgseq):
+    cur = old.self.bitfield_msg.current_seqnum
+    d = S.rdist(cur, S.ival(msgseq))
+    return (S.ival(cur) != 0) & (d > 256) & (d <= S.T)
+
+
+def dispatch_clause(events, pkt_typ, msgseq, msg):
+    ev = [e for e in events if e[0] == 'handler']
+    goal = True
+    for tname, h in HANDLERS.items():
+        is_t = S.enum_is(pkt_typ, pkt_typ.cls.class_attrs[tname])
+        if len(ev) == 1 and ev[0][1] == h:
+            a = ev[0][2]
+            if h in ('_recvApp', '_recvAppFragment'):
+                ok = len(a) == 2 and a[0] is msgseq and a[1] is msg
+            else:
+                ok = len(a) == 1 and a[0] is msg
+            goal = ops.and_(goal, ops.implies(is_t, ok))
+        else:
+            goal = ops.and_(goal, ops.implies(is_t, False))
+    if len(ev) == 0:
+        return S.enum_is(pkt_typ, pkt_typ.cls.class_attrs['UNKNOWN'])
+    return goal
+
+
+# ------------------------------------------------------------------------------------------ _recv_datagram
+MSG_FRAME = ['self.bitfield_msg.bits', 'self.bitfield_msg.current_seqnum', 'self.incoming_messages', 'self.status',
+             'self.received_fragments', 'self.outgoing_messages', 'self.seq_message', 'self.stats.sent']
+
+
+@contract('connection.ConnectionBase._recv_message', props=[], variant='effects')
+class _:
+    """frame of _recv_message for modular use: the union of the frames of the message handlers of the base class
+    (the subclasses' hello handlers additionally write the key/token fields: see c02_handshake).  Assumed here, each handler
+    has its own verified contract."""
+    trusted = True
+    def setup(E):
+        return dict(self=None)
+    modifies = MSG_FRAME
+    havoc_kinds = {'self.status': lambda ip, v, name: Obj(v.cls, {'value': Sym(ip.ctx.fresh('status_after', z3.IntSort()), 'int')})}
+
+
+def bits_same(a, b, j):
+    return S.same_bits(a, b, j)
+
+
+def untouched_by_a_dropped_datagram(old, self, j, k):
+    """everything the statement lists: no message delivered, no send acknowledged or timed out, key / status / liveness clock
+    unchanged, receive windows not moved"""
+    o = old.self
+    kt = S.term(k)
+    return (S.eq(S.ival(self.bitfield_pkt.current_seqnum), S.ival(o.bitfield_pkt.current_seqnum)) & bits_same(self.bitfield_pkt.bits, o.bitfield_pkt.bits, j)
+            & S.eq(S.ival(self.bitfield_msg.current_seqnum), S.ival(o.bitfield_msg.current_seqnum)) & bits_same(self.bitfield_msg.bits, o.bitfield_msg.bits, j)
+            & S.same(self.incoming_messages, o.incoming_messages) if False else
+            (S.eq(S.ival(self.bitfield_pkt.current_seqnum), S.ival(o.bitfield_pkt.current_seqnum)) & bits_same(self.bitfield_pkt.bits, o.bitfield_pkt.bits, j)
+             & S.eq(S.ival(self.bitfield_msg.current_seqnum), S.ival(o.bitfield_msg.current_seqnum)) & bits_same(self.bitfield_msg.bits, o.bitfield_msg.bits, j)
+             & S.bool(z3.And(self.incoming_messages.n == o.incoming_messages.n,
+                             z3.Implies(z3.And(0 <= S.term(j), S.term(j) < o.incoming_messages.n),
+                                        z3.Select(self.incoming_messages.arr, S.term(j)) == z3.Select(o.incoming_messages.arr, S.term(j))),
+                             same_at(self.pending_acks, o.pending_acks, kt), same_at(self.pending_callbacks, o.pending_callbacks, kt),
+                             same_at(self.pending_retry, o.pending_retry, kt), same_at(self.pending_retry_msg, o.pending_retry_msg, kt)))
+             & S.eq(self.last_recv_time, o.last_recv_time) & S.enum_is(self.status, o.status)
+             & S.eq(self.stats.received, o.stats.received) & S.eq(self.stats.acked, o.stats.acked) & S.eq(self.stats.timeouts, o.stats.timeouts)
+             & (self.session_key_bytes is o.session_key_bytes or S.eq(self.session_key_bytes, o.session_key_bytes))))
+
+
+def not_stale(old, hdr):
+    """the datagram is new to the 32-wide receive window: newer than everything seen, or inside the window and not yet received.
+    (A datagram older than the window can be a replay and can never be acknowledged: it must not be accepted.)"""
+    cur = old.self.bitfield_pkt.current_seqnum
+    s = S.ival(hdr.seq)
+    d = S.rdist(cur, s)                # how far behind the newest
+    ahead = S.rdist(s, cur)            # how far ahead of the newest
+    return (S.ival(cur) == 0) | ((1 <= ahead) & (ahead <= S.T)) | ((1 <= d) & (d <= 32))
+
+
+for _k in ('key', 'no-key'):
+    @contract('connection.ConnectionBase._recv_datagram', props=['C01', 'C04', 'C12', 'C11'], variant=None if _k == 'key' else 'no-key')
+    class _:
+        def setup(E, _k=_k):
+            self = make_conn(E, key='some' if _k == 'key' else 'none')
+            E.ghost('conn', self)
+            sweep_ghosts(E)
+            E.ghost('clock_last', z3.Real('clock_last0'))
+            hdr = make_header(E, 'hdr')
+            hdr.attrs['seq'] = E.int('hdr_seq1', cls=SEQ, lo=1, hi=S.M)
+            raw = E.pred('hdr_ack_bits_fn', z3.IntSort(), z3.BoolSort())
+            hdr.attrs['ack_bits'] = E.bitset('hdr_ack_bits_bs', fn=lambda j: z3.And(j >= 0, j < 32, raw(j)))
+            E.ghost('ack_hdr', (hdr.attrs['ack'], hdr.attrs['ack_bits']))
+            return dict(self=self, hdr=hdr, datagram=E.bytes('datagram'))
+        uses = ['connection.Packet.from_bytes' + ('' if _k == 'key' else '@no-key'), 'connection.BitField.insert',
+                'connection.ConnectionBase._handle_ack_bits', 'connection.ConnectionBase._recv_message@effects']
+        hooks = {'symfn': callback_effects}
+        skolems = {'j': 'int', 'k': 'int', 'x': 'int', 's': 'int', 'js': 'int', 'q': 'int', 'r': 'int'}
+        loops = {0: LoopSpec(invariant={'clock-kept': lambda self, ghost: S.bool(S.term(self.last_recv_time, 'real') == ghost.t_recv)},
+                             havoc=MSG_FRAME, havoc_kinds={'self.status': lambda ip, v, name: Obj(v.cls, {'value': Sym(ip.ctx.fresh('status_l', z3.IntSort()), 'int')})},
+                             ghost_init=lambda ip, frame, env: ip.state.ghost.__setitem__('t_recv', S.term(env['self'].last_recv_time, 'real')),
+                             label='message-loop')}
+        ensures = {
+            # C01 / C04-O1: a datagram that does not authenticate, or that is a duplicate, is counted as dropped and has no other effect
+            'dropped-datagram-has-no-other-effect': lambda old, self, result, j, k: S.implies(
+                S.Not(result), S.eq(self.stats.dropped, old.self.stats.dropped + 1) & untouched_by_a_dropped_datagram(old, self, j, k)),
+            # C04-O2: accepted only if new to the window (not received before, not older than the window)
+            'accepted-only-if-new-to-the-window': lambda old, hdr, result: S.implies(
+                result, S.Not(recv(old.self.bitfield_pkt.current_seqnum, old.self.bitfield_pkt.bits, 32, S.ival(hdr.seq))) & not_stale(old, hdr)),
+            # E2 (C12): an accepted datagram restarts the liveness clock
+            'accepted-datagram-restarts-the-liveness-clock': lambda self, result, ghost: S.implies(
+                result, S.bool(S.term(self.last_recv_time, 'real') == ghost.clock_last)),
+            'accepted-datagram-is-counted': lambda old, self, result: S.implies(result, S.eq(self.stats.received, old.self.stats.received + 1)
+                                                                              & S.eq(self.stats.dropped, old.self.stats.dropped)),
+        }
+        # hostile bytes (C11): nothing escapes from decoding; exceptions can only come from message handlers (authenticated content)
+        may_raise = ['Exception']
